@@ -122,20 +122,20 @@ type rng struct {
 }
 
 type op struct {
-	kind    string // Put PutS Copy Get Del BatchDel MpCreate MpPut MpPutS MpCopy MpComplete MpAbort MpList
-	key     int
-	src     int
-	ks      []int
-	u       int
-	n       int
-	seed    uint64
-	size    int
-	rep     bool // body = size copies of byte seed (big bodies)
-	tamper  bool
-	cuts    []int
-	r       rng
-	hasR    bool
-	ra, rb  uint64
+	kind   string // Put PutS Copy Get Del BatchDel MpCreate MpPut MpPutS MpCopy MpComplete MpAbort MpList
+	key    int
+	src    int
+	ks     []int
+	u      int
+	n      int
+	seed   uint64
+	size   int
+	rep    bool // body = size copies of byte seed (big bodies)
+	tamper bool
+	cuts   []int
+	r      rng
+	hasR   bool
+	ra, rb uint64
 }
 
 // body bytes: the LCG of `gen` in coq/check/C28.v
@@ -883,7 +883,9 @@ func genCase(r *hx.Rng) caseSpec {
 
 func witnesses() []caseSpec {
 	put := func(k int, seed uint64, size int) *op { return &op{kind: "Put", key: k, seed: seed, size: size} }
-	part := func(u, n int, seed uint64, size int) *op { return &op{kind: "MpPut", u: u, n: n, seed: seed, size: size} }
+	part := func(u, n int, seed uint64, size int) *op {
+		return &op{kind: "MpPut", u: u, n: n, seed: seed, size: size}
+	}
 	get := func(k int) *op { return &op{kind: "Get", key: k} }
 	return []caseSpec{
 		// 0: part 10000 sorts between 1000 and 1001
@@ -908,6 +910,9 @@ func witnesses() []caseSpec {
 			{kind: "MpCopy", u: 0, n: 2, src: 2}, {kind: "MpComplete", u: 0}, get(6)}},
 		// 8: a leftover empty directory redirects a later PUT
 		{limit: 100000, kind: "witness-leftover-dir", ops: []*op{put(1, 81, 8), {kind: "Del", key: 1}, put(0, 82, 5), get(0)}},
+		// 9: UploadPartCopy with a range that starts at the end of the source stores an empty part
+		{limit: 100000, kind: "witness-copy-range-at-end", ops: []*op{put(2, 91, 9), {kind: "MpCreate", key: 6}, part(0, 1, 92, 5),
+			{kind: "MpCopy", u: 0, n: 2, src: 2, hasR: true, ra: 9, rb: 12}, {kind: "MpList", u: 0}, {kind: "MpComplete", u: 0}, get(6)}},
 	}
 }
 
@@ -916,17 +921,23 @@ func bigCase(r *hx.Rng) caseSpec {
 	const mib = 1 << 20
 	c := caseSpec{limit: 100000, kind: "multichunk"}
 	c.ops = append(c.ops, &op{kind: "MpCreate", key: 6})
+	// a small part, a part of two filer chunks (1 MiB + tail), a small part: the running offset
+	// has to be carried through the chunks of the middle entry
 	nums := []int{1, 2, 9, 10, 999, 1000}
 	r0 := r.Intn(len(nums) - 1)
-	for i := 0; i < 2; i++ {
-		c.ops = append(c.ops, &op{kind: "MpPut", u: 0, n: nums[r0+i], rep: true, seed: uint64(r.Range(1, 250)), size: mib*r.Range(1, 2) + r.Range(0, 40)})
-	}
+	head := r.Range(1, 30)
+	tail := r.Range(0, 40)
+	c.ops = append(c.ops, &op{kind: "MpPut", u: 0, n: nums[r0], seed: 98, size: head})
+	c.ops = append(c.ops, &op{kind: "MpPut", u: 0, n: nums[r0+1], rep: true, seed: uint64(r.Range(1, 250)), size: mib + tail})
 	c.ops = append(c.ops, &op{kind: "MpPut", u: 0, n: 5000, seed: 99, size: r.Range(1, 30)})
 	c.ops = append(c.ops, &op{kind: "MpList", u: 0}, &op{kind: "MpComplete", u: 0})
 	for i := 0; i < 3; i++ {
-		a := uint64(mib - 20 + r.Intn(40))
-		if i == 1 {
-			a = uint64(2*mib - 10 + r.Intn(60))
+		a := uint64(head + mib - 20 + r.Intn(30)) // around the boundary of the two chunks
+		switch i {
+		case 1:
+			a = uint64(r.Intn(head + 5)) // around the first part boundary
+		case 2:
+			a = uint64(head + mib + tail - 10 + r.Intn(12)) // around the last part boundary
 		}
 		c.ops = append(c.ops, &op{kind: "Get", key: 6, r: rng{kind: "closed", a: a, b: a + uint64(r.Range(1, 60))}})
 	}
@@ -937,8 +948,8 @@ func bigCase(r *hx.Rng) caseSpec {
 func main() {
 	out := hx.Flags("C28", 300)
 	out.Rule = "histories of S3 requests on one bucket through the real gateway router over a real in-process filer (leveldb2) with a loopback volume stand-in: " +
-		"first 9 deterministic witnesses of the known findings, then per case one of: multipart (1-2 uploads over prefix-free keys, part numbers from {1,2,9,10,999,1000,1001,9999,10000} with a small per-case pool so that overwrites and the 10000 mix happen, bodies 0..64 bytes, streaming-signed parts incl. a bad chunk signature, UploadPartCopy with ranges, ListParts, abort, requests after completion; dirListLimit in {100000,1000,1..3}, saveToFilerLimit in {0,8,32,100}), " +
-		"objects (PUT / streaming PUT / copy / GET with closed, open, suffix and unsatisfiable ranges / DELETE / batch delete over prefix-free keys), namespace (the same over keys that are path prefixes of each other: a, a/b, a/b/c, d, d/e, ab), case 9 and every 400th case a multi-chunk upload (parts of 1-2 MiB + tail, 1 MiB filer chunks). " +
+		"first 10 deterministic witnesses of the known findings, then per case one of: multipart (1-2 uploads over prefix-free keys, part numbers from {1,2,9,10,999,1000,1001,9999,10000} with a small per-case pool so that overwrites and the 10000 mix happen, bodies 0..64 bytes, streaming-signed parts incl. a bad chunk signature, UploadPartCopy with ranges, ListParts, abort, requests after completion; dirListLimit in {100000,1000,1..3}, saveToFilerLimit in {0,8,32,100}), " +
+		"objects (PUT / streaming PUT / copy / GET with closed, open, suffix and unsatisfiable ranges / DELETE / batch delete over prefix-free keys), namespace (the same over keys that are path prefixes of each other: a, a/b, a/b/c, d, d/e, ab), case 10 and every 400th case a multi-chunk upload (a part of 1 MiB + tail = two 1 MiB filer chunks between two small parts, ranges across the chunk and part boundaries). " +
 		"non-trivial = some GET returned a non-empty body; distinct = canonical configuration + op list"
 	w := newWorld()
 	defer w.close()
@@ -949,7 +960,9 @@ func main() {
 		switch {
 		case i < len(wit):
 			runCase(out, w, wit[i])
-		case i%400 == 399 || i == len(wit):
+		case i%400 == 399 || (i == len(wit) && out.Seed%1000 == 0):
+			// the multi-chunk case is expensive on the Coq side (lists of a million bytes): once per run
+			// (bin/check seeds shard k with seed*1000+k) and every 400th case
 			runCase(out, w, bigCase(r))
 		default:
 			runCase(out, w, genCase(r))
